@@ -4,9 +4,9 @@ from ..fn import World
 from ..index import AnalysisError, dotted
 from ..astutil import text, short, endswith, calls_in, walk_no_nested
 from ..callgraph import CallGraph
-from ..ordertaint import Analysis, REDUCERS, key_is_injective, key_has_element
+from ..ordertaint import Analysis, REDUCERS, key_is_injective, key_has_element, key_known
 from ._h_F import (ifn, Res, res_of, iterations, aliases_of, strip_wrappers, call_arg, absent,
-                   sorted_view, loop_body_nodes)
+                   sorted_view, loop_body_nodes, need, repo_callees)
 
 EXPLANATION = (
   "Order-taint analysis: iteration order of set-typed values (hash-seed / object-identity "
@@ -176,7 +176,7 @@ def r4_schedule(run, w):
   p = fn.fi.params()[1]
   # every iteration that involves the nodes handed in goes over a sorted view of them whose key
   # contains the node itself
-  ok, n_sorted = True, 0
+  ok, n_sorted, n_seen = True, 0, 0
   names = aliases_of(r, p)
   for (it, tg, body, owner) in iterations(fn.node):
     at = r.node_of_expr(it) if not isinstance(owner, ast.For) else r.nodes_of(owner)
@@ -189,32 +189,49 @@ def r4_schedule(run, w):
           for (v, d) in (r.values_at(at[0].id, it.id) or []) for x in ast.walk(r.expand(v, d))))
     if not mentions:
       continue
+    n_seen += 1
+    if isinstance(t, ast.Call) and dotted(t.func) != "sorted" and repo_callees(w, fn, t):
+      raise AnalysisError("_make_sorted_work_items: the nodes are ordered by %s, which is not "
+                          "followed" % short(t.func, 50))
     sv = sorted_view(r, fn, it, at[0].id)
+    if sv is not None and not key_known(fn, sv[1]):
+      raise AnalysisError("_make_sorted_work_items: the sort key %s cannot be inspected"
+                          % short(sv[1], 60))
     good = sv is not None and isinstance(sv[0], ast.Name) and sv[0].id in names and \
         key_has_element(fn, sv[1])
     n_sorted += good
     ok = ok and good
-  ok = ok and n_sorted >= 1
+  need(n_seen, "an iteration over the nodes handed in", fn)
   run.ob(R4, fn.qualname, "sorted(nodes, key=lambda n: (..., n))", "scheduling order does not "
          "depend on dict/set iteration order: the sort key contains the node itself", ok, fi=fn.fi)
   for q in ("engine.Engine._bring_all_up_to_date", "engine.Engine._bring_mlookups_up_to_date",
             "engine.Engine._update_loop"):
-    f = w.fn(q)
+    f = ifn(w, q)
     fr = res_of(w, f)
     for (n, c, nm) in f.calls():
       if nm == "self._update_loop" and call_arg(c, 0, "work_items") is not None:
         a = fr.expand(call_arg(c, 0, "work_items"), n.id)
+        if isinstance(a, ast.Name):
+          vals = fr.values_at(n.id, a.id)
+          if vals and all(isinstance(fr.expand(v, d), ast.Call) and
+                          (f.name(fr.expand(v, d)) or "") == "self._make_sorted_work_items"
+                          for (v, d) in vals):
+            a = fr.expand(vals[0][0], vals[0][1])
+          else:
+            raise AnalysisError("%s: what is handed to _update_loop (%s) could not be traced"
+                                % (q, a.id))
         ok = isinstance(a, ast.Call) and (f.name(a) or "") == "self._make_sorted_work_items"
         run.ob(R4, q, "self._update_loop(<sorted work items>%s)" %
                "".join(", %s=%s" % (k.arg, text(k.value)) for k in c.keywords),
                "update loop starts from sorted work items", ok, fi=f.fi, node=c)
     if q.endswith("_update_loop"):
       wp = f.fi.params()[1]
-      ok = any(n.kind == "stmt" and isinstance(n.stmt, ast.Assign) and
-               any(text(t) == wp for t in n.stmt.targets) and
-               isinstance(fr.expand(n.stmt.value, n.id), ast.Call) and
+      rebinds = [n for n in fr.cfg.nodes if n.kind == "stmt" and isinstance(n.stmt, ast.Assign)
+                 and any(text(t) == wp for t in n.stmt.targets)]
+      need(rebinds, "the statement that refills %s inside the update loop" % wp, f)
+      ok = all(isinstance(fr.expand(n.stmt.value, n.id), ast.Call) and
                (f.name(fr.expand(n.stmt.value, n.id)) or "") == "self._make_sorted_work_items"
-               for n in fr.cfg.nodes)
+               for n in rebinds)
       run.ob(R4, q, "work_items = self._make_sorted_work_items(self.recompute_map.keys())",
              "remaining work is re-sorted on every round", ok, fi=f.fi)
 
@@ -258,14 +275,18 @@ def r5_sorted_flush(run, w):
   conv = [c for (n, c, nm) in fn.calls() if endswith(nm, "self._changes_to_actions")]
   loops = [(it, owner) for (it, tg, body, owner) in iterations(fn.node)
            if any(_inside(b, c) for b in body for c in conv)]
-  ok = bool(conv) and len(loops) >= 2
+  need(conv, "the call of _changes_to_actions", fn)
+  need(loops, "the loop(s) around the call of _changes_to_actions", fn)
+  ok = True
   for (it, owner) in loops:
     at = r.node_of_expr(it)
-    t = r.expand(it, at[0].id) if at else it
-    ok = ok and isinstance(t, ast.Call) and dotted(t.func) == "sorted" and \
-        key_is_injective(fn, t)
-  if not conv:
-    ok = absent(w, fn, "the call of _changes_to_actions")
+    need(at, "where the loop iterable is evaluated", fn)
+    t = r.expand(it, at[0].id)
+    sv = sorted_view(r, fn, it, at[0].id)
+    if sv is None and isinstance(t, ast.Call) and repo_callees(w, fn, t):
+      raise AnalysisError("convert_deltas_to_actions: iterates the result of %s, which is not "
+                          "followed" % short(t.func, 50))
+    ok = ok and sv is not None and key_is_injective(fn, sv[1])
   run.ob(R5, fn.qualname, "for table_id in sorted(...): for col_id in sorted(...)",
          "calc actions are emitted by table then column name", ok, fi=fn.fi)
   # rows of one column delta: every iteration over the delta dict feeds a sorted(...)
@@ -334,14 +355,30 @@ def r5_sorted_flush(run, w):
                 continue
               ok = False
   run.ob(R5, fn.qualname, "full_row_ids = sorted(...)", "rows inside a calc action are in row id "
-         "order", ok and n_it >= 1, fi=fn.fi)
+         "order", ok and bool(need(n_it, "an iteration over the column delta", fn)), fi=fn.fi)
   fn = ifn(w, "docmodel.DocModel.apply_auto_removes")
   r = res_of(w, fn)
   # every iteration over / copy of the auto-remove set goes through sorted()
+  is_set = lambda x: isinstance(x, ast.Attribute) and x.attr == "_auto_remove_set"
+  need(any(is_set(x) for x in ast.walk(fn.node)), "a use of self._auto_remove_set", fn)
   ok = False
   for (n, c) in _sorted_calls(fn):
     if "._auto_remove_set" in ("." + r.norm(c.args[0], n.id)):
       ok = True
+  if not ok:
+    # not sorted here: a violation only if the set is visibly iterated / copied in another order
+    seen_raw = False
+    for cn in r.cfg.nodes:
+      for e in cn.exprs:
+        for x in walk_no_nested(e):
+          if isinstance(x, ast.Call) and dotted(x.func) in ("list", "tuple", "iter") and \
+              x.args and is_set(r.expand(x.args[0], cn.id)):
+            seen_raw = True
+    for (it, tg, body, owner) in iterations(fn.node):
+      at = r.node_of_expr(it)
+      if at and _outside_sorted(r.expand(it, at[0].id), is_set):
+        seen_raw = True
+    need(seen_raw, "how the records of self._auto_remove_set are put in order", fn)
   for (it, tg, body, owner) in iterations(fn.node):
     at = r.node_of_expr(it)
     t = r.expand(it, at[0].id) if at else it
